@@ -131,9 +131,13 @@ Definition rfc_occurrences (v : vevent) (a b : Z) : list ivl :=
   | Some r => filter (fun i => s_instant (ve_dtstart v) <=? fstart i) (spec_occurrences r a b)
   | None =>
     let s := s_instant (ve_dtstart v) in
-    let e := match ve_end v with
-             | EDtend x => s_instant x
-             | _ => s + s_duration v
+    let e := match ve_end v, ve_dtstart v with
+             | EDtend x, _ => s_instant x
+             | EDuration d, DTz z w =>
+               (* RFC 5545 3.3.6: days are nominal (the same wall-clock time d / DAY days later),
+                  hours, minutes and seconds exact *)
+               if 0 <=? d then wall_to_utc z (w + (d / DAY) * DAY) false + d mod DAY else s + d
+             | _, _ => s + s_duration v
              end in
     if (a <? e) && (s <=? b) then [mkI (Some s) (Some e) Plain] else []
   end.
